@@ -62,14 +62,16 @@ def build(p: Dict[str, Any]) -> Dict[str, Any]:
                       "CONSTANT_WITH_A_NAME_THAT_GOES_PAST_COLUMN_FORTY_EIGHT": 77},
         "string_constants": {"GREETING": "hello world"},
         "aliases": {"A1": p["n4"], "A2": "A1"},
-        "host_ids": {"MYHOST": 10},
-        "module_ids": {"MYMOD": 12},
+        "host_ids": {"MYHOST": 10, "CHID_X": 11},
+        "module_ids": {"MYMOD": 12, "AMID_SHIP": 13},
         "struct_defs": {"MID": {"x": "INNER", "y": "INNER[2]", "z": arr(p["n3"], "K")}},
         "message_defs": {
             "SIG": {"id": 1000, "fields": None},
             "MSG_A": {"id": 1001, "fields": {"c": "char", "d": "A2", "e": arr(p["n1"], "K2"), "o": "MID", "s": "char[16]", "u": arr(p["n2"], 3)}},
             "MSG_B": {"id": 1002, "fields": "MSG_A"},
             "SIGNAL_WITH_A_NAME_THAT_GOES_PAST_COLUMN_FORTY_EIGHT": {"id": 1040, "fields": None},
+            "FMT_DATA": {"id": 1041, "fields": None},
+            "MT_LEAD": {"id": 1042, "fields": None},
             "_RESERVED_": {"id": [1003, '"1005 - 1007"'], "fields": None},
         },
     }
